@@ -61,6 +61,7 @@ func newParserModel(p *Program) *parserModel {
 	}
 	// the look-ahead roles by use: in a function that calls ReadToken and does not count tokens, the fields that
 	// receive its two results, and the bool field set to true next to them
+	var peekByUse *ssa.Function
 	if !have["peeked"] || !have["peekToken"] || !have["peekError"] {
 		counts := map[*ssa.Function]bool{}
 		for _, s := range storesToField(m.fns, m.T, "tokenCount") {
@@ -75,48 +76,89 @@ func newParserModel(p *Program) *parserModel {
 				if !ok || call.Call.StaticCallee() != m.read || call.Referrers() == nil {
 					return
 				}
+				// where a result goes: a field of the parser (or of a struct it embeds), directly or through a small
+				// helper that stores its parameters (`p.store(p.lexer.ReadToken())`)
+				var flagFns []*ssa.Function
+				flagFns = append(flagFns, fn)
+				fieldsStoredFrom := func(v ssa.Value) []fieldRef {
+					var out []fieldRef
+					if v.Referrers() == nil {
+						return nil
+					}
+					for _, r2 := range *v.Referrers() {
+						switch x := r2.(type) {
+						case *ssa.Store:
+							if x.Val != v {
+								continue
+							}
+							if fa, ok := x.Addr.(*ssa.FieldAddr); ok {
+								if n, f, _, _ := fieldOf(fa); n != nil {
+									out = append(out, fieldRef{n, f})
+								}
+							}
+						case ssa.CallInstruction:
+							h := x.Common().StaticCallee()
+							if h == nil || h.Pkg != fn.Pkg || len(h.Blocks) > 3 {
+								continue
+							}
+							for i, a := range x.Common().Args {
+								if a != v || i >= len(h.Params) {
+									continue
+								}
+								prm := h.Params[i]
+								if prm.Referrers() == nil {
+									continue
+								}
+								for _, r3 := range *prm.Referrers() {
+									if st3, ok := r3.(*ssa.Store); ok && st3.Val == ssa.Value(prm) {
+										if fa, ok := st3.Addr.(*ssa.FieldAddr); ok {
+											if n, f, _, _ := fieldOf(fa); n != nil {
+												out = append(out, fieldRef{n, f})
+												flagFns = append(flagFns, h)
+											}
+										}
+									}
+								}
+							}
+						}
+					}
+					return out
+				}
 				for _, ref := range *call.Referrers() {
 					ex, ok := ref.(*ssa.Extract)
 					if !ok || ex.Referrers() == nil {
 						continue
 					}
-					for _, r2 := range *ex.Referrers() {
-						stt, ok := r2.(*ssa.Store)
-						if !ok || stt.Val != ssa.Value(ex) {
-							continue
-						}
-						fa, ok := stt.Addr.(*ssa.FieldAddr)
-						if !ok {
-							continue
-						}
-						n, f, _, _ := fieldOf(fa)
-						if n == nil {
-							continue
-						}
+					for _, fr := range fieldsStoredFrom(ex) {
 						if ex.Index == 0 {
-							m.roles["peekToken"] = fieldRef{n, f}
+							m.roles["peekToken"] = fr
 						} else {
-							m.roles["peekError"] = fieldRef{n, f}
+							m.roles["peekError"] = fr
 						}
+						peekByUse = fn
 					}
 				}
-				// the flag: a bool field of the same struct stored true in this function
+				// a call whose results are passed on as a tuple: f(g()) has no Extract; the call itself is the argument list
+				// (go/ssa expands it into Extracts, so nothing to do here)
+				// the flag: a bool field of the same struct stored true in this function (or in the storing helper)
 				if r, ok := m.roles["peekToken"]; ok {
-					allInstrs(fn, func(in2 ssa.Instruction) {
-						stt, ok := in2.(*ssa.Store)
-						if !ok {
-							return
-						}
-						cst, ok := stt.Val.(*ssa.Const)
-						if !ok || cst.Value == nil || cst.Value.String() != "true" {
-							return
-						}
-						if fa, ok := stt.Addr.(*ssa.FieldAddr); ok {
-							if n, f, _, _ := fieldOf(fa); n != nil && sameNamed(n, r.st) {
-								m.roles["peeked"] = fieldRef{n, f}
+					for _, ff := range flagFns {
+						allInstrs(ff, func(in2 ssa.Instruction) {
+							stt, ok := in2.(*ssa.Store)
+							if !ok {
+								return
 							}
-						}
-					})
+							cst, ok := stt.Val.(*ssa.Const)
+							if !ok || cst.Value == nil || cst.Value.String() != "true" {
+								return
+							}
+							if fa, ok := stt.Addr.(*ssa.FieldAddr); ok {
+								if n, f, _, _ := fieldOf(fa); n != nil && sameNamed(n, r.st) {
+									m.roles["peeked"] = fieldRef{n, f}
+								}
+							}
+						})
+					}
 				}
 			})
 		}
@@ -145,7 +187,9 @@ func newParserModel(p *Program) *parserModel {
 	for _, s := range m.stores("peekToken") {
 		pset[s.fn] = true
 	}
-	if len(pset) == 1 {
+	if peekByUse != nil {
+		m.peek = peekByUse
+	} else if len(pset) == 1 {
 		for f := range pset {
 			m.peek = f
 		}
